@@ -117,7 +117,7 @@ class C08(Driver):
             threads[0]["ops"].insert(r.randint(0, len(threads[0]["ops"])), {"op": "burst-take", "ch": bch, "n": n, "away_ms": r.choice([5, 20])})
             pt = len(threads)
             threads.append({"id": pt, "mode": r.choice(["join", "n"]),
-                            "ops": [{"op": "give", "ch": bch, "mid": pt * 1000 + k, "shape": r.choice([0, 1, 4])} for k in range(n)]})
+                            "ops": [{"op": "burst-give", "ch": bch, "n": n, "base": pt * 1000}]})
             burst = {"ch": bch, "n": n}
         sched = r.choice(["random", "random", "pct1", "pct2", "pct3"])
         knobs = {"seed": seed, "p": {"switch": r.choice([0.02, 0.1, 0.3, 0.6])}, "sched": sched,
@@ -180,6 +180,11 @@ class C08(Driver):
                     A("  (let [[ok v] (protect (ev/take (chans %d)))] (if (and ok v) (if (msg? v) (do (sim/ev :got %d %d (v 0) (show (v 1))) (borrow (v 1))) (sim/ev :badshape %d %d :take (show v)))) (sim/ev :ret %d %d :take ok (if ok (if v :msg :nil) v)))"
                       % (op["ch"], t, op["ch"], t, op["ch"], t, k))
                     A("  (after-borrow)")
+                elif o == "burst-give":
+                    # (a loop, not n unrolled forms: a function body with hundreds of captured locals does not compile)
+                    A("  (for k 0 %d (let [mid (+ %d k) m (mk (in [0 1 4] (%% k 3)) mid)] (sim/ev :inv %d (+ 2000 k)) (sim/ev :send %d %d mid (show m))"
+                      % (op["n"], op["base"], t, t, op["ch"]))
+                    A("    (let [[ok v] (protect (ev/give (chans %d) [mid m]))] (sim/ev :ret %d (+ 2000 k) :give ok (if ok (if v :ok :closed) v)))))" % (op["ch"], t))
                 elif o == "burst-take":
                     A("  (for j 0 %d (ev/spawn (sim/ev :inv %d (+ 1000 j))" % (op["n"], t))
                     A("    (let [[ok v] (protect (ev/take (chans %d)))] (if (and ok v) (if (msg? v) (sim/ev :got %d %d (v 0) (show (v 1))) (sim/ev :badshape %d %d :take (show v))))"
@@ -238,7 +243,7 @@ class C08(Driver):
         # main thread marks quiescence and drains what is still queued, so that "still in the channel" is observable
         A("(ev/spawn (ev/sleep 1) (sim/ev :quiescent)")
         A("  (var progress true) (var rounds 0)")
-        A("  (while (and progress (< rounds 60)) (set progress false) (++ rounds)")
+        A("  (while (and progress (< rounds %d)) (set progress false) (++ rounds)" % (60 + 2 * (plan.get("burst") or {}).get("n", 0)))
         A("    (each c chans (while (> (ev/count c) 0)")
         A("      (let [[ok v] (protect (ev/with-deadline 0.5 (ev/take c)))] (if (and ok v) (do (set progress true) (sim/ev :got 99 (cid c) (v 0) (show (v 1)))) (break)))))")
         A("    (ev/sleep 1))")
@@ -288,6 +293,9 @@ class C08(Driver):
                 if op["op"] == "burst-take":
                     for j in range(op["n"]):
                         ops[(th["id"], 1000 + j)] = {"op": "take", "ch": op["ch"]}
+                if op["op"] == "burst-give":
+                    for j in range(op["n"]):
+                        ops[(th["id"], 2000 + j)] = {"op": "give", "ch": op["ch"], "mid": op["base"] + j}
         for e in evs:
             if e.kind == "gaveup":
                 t, c = e.payload.split(" ")[:2]
